@@ -114,9 +114,14 @@ fn check_cf<CF: CostFunction<LSym, Cost = u64>>(eg: &EGraph<LSym>, cf: CF, cf2: 
             return false;
         }
     };
-    let known: BTreeSet<String> = all_visible_slots(eg).union(user_names).cloned().collect();
+    // slots that exist so far: everything visible in the e-graph, every user name, and every slot an earlier extraction returned
+    // (a slot that was handed out once is not brand-new the second time)
+    let mut known: BTreeSet<String> = all_visible_slots(eg).union(user_names).cloned().collect();
     let mut n_classes_with_choice = 0;
-    for q in queries {
+    let mut work: Vec<(AppliedId, bool)> = queries.iter().rev().map(|q| (q.clone(), true)).collect();
+    while let Some((q, may_follow_up)) = work.pop() {
+        let q = &q;
+        let mut extra_slots: Vec<Slot> = vec![];
         let fq = eg.find_applied_id(q);
         let Some(own_best) = own.get(&fq.id) else {
             // no finite term in this class by the own computation: nothing to demand
@@ -151,11 +156,29 @@ fn check_cf<CF: CostFunction<LSym, Cost = u64>>(eg: &EGraph<LSym>, cf: CF, cf2: 
             for n in tm.fv() {
                 let nm = &rev[&n];
                 if !args.contains(nm) && known.contains(nm) {
-                    return Err(("free-slot-neither-argument-nor-new".into(), format!("[{name}] extract({q:?}) = {txt} has free slot {nm}, which is no argument of the query and not a new slot")));
+                    return Err(("free-slot-neither-argument-nor-new".into(), format!("[{name}] extract({q:?}) = {txt} has free slot {nm}, which is no argument of the query and not a new slot (it is visible in the e-graph, a user name, or was returned by an earlier extraction)")));
+                }
+                if !args.contains(nm) {
+                    extra_slots.push(Slot::named(&nm[1..]));
                 }
             }
             Ok(())
         });
+        for z in &extra_slots {
+            known.insert(z.to_string());
+        }
+        // follow-up query: one argument of the query renamed onto a slot that an extraction invented
+        if may_follow_up && !extra_slots.is_empty() && !q.m.is_empty() {
+            let z = extra_slots[0];
+            if !q.m.values().contains(&z) {
+                let keys: Vec<Slot> = q.m.keys().iter().copied().collect();
+                let k = keys[rng.below(keys.len())];
+                let mut m2 = q.m.clone();
+                m2.insert(k, z);
+                out.inc("follow_up_queries_onto_invented_slot");
+                work.push((AppliedId::new(q.id, m2), false));
+            }
+        }
         match r {
             Ok(Ok(())) => {}
             Ok(Err((sig, d))) => {
@@ -173,7 +196,6 @@ fn check_cf<CF: CostFunction<LSym, Cost = u64>>(eg: &EGraph<LSym>, cf: CF, cf2: 
         }
     }
     out.add("queries_with_cost_choice", n_classes_with_choice);
-    let _ = rng;
     true
 }
 
